@@ -159,7 +159,17 @@ func bucketClockScenario(c *sup.Ctx, r *rng.R) {
 					cas, err = col.WriteTombstoneWithXattrs(ctx, key, 0, last[lk], map[string][]byte{"_sync": []byte(`{"a":3}`)}, nil, false, nil)
 				default:
 					// a blind write followed by a read of the CAS it got
-					if err = col.Set(key, 0, nil, body); err == nil {
+					// (with and without PreserveExpiry, as JSON and as raw bytes: each has its own UPDATE statement)
+					var uo *sgbucket.UpsertOptions
+					if wr.Bool() {
+						uo = &sgbucket.UpsertOptions{PreserveExpiry: true}
+					}
+					if wr.Intn(3) == 0 {
+						err = col.SetRaw(key, 0, uo, body)
+					} else {
+						err = col.Set(key, 0, uo, body)
+					}
+					if err == nil {
 						_, cas, err = col.GetRaw(key)
 						cas = 0 // the read may already see a later write: not a stamp of this call
 					}
